@@ -85,12 +85,14 @@ func TemplatesWithSkipSchemaValidation(linter *support.Linter, values map[string
 		return
 	}
 
-	cvals, err := chartutil.CoalesceValues(chart, values)
-	if err != nil {
+	// Only check here that the values can be coalesced: ToRenderValues coalesces the supplied
+	// values itself. Handing it already coalesced values coalesces twice, which applies
+	// nulls a second time, so lint would validate and render other values than install does.
+	if _, err := chartutil.CoalesceValues(chart, values); err != nil {
 		return
 	}
 
-	valuesToRender, err := chartutil.ToRenderValuesWithSchemaValidation(chart, cvals, options, caps, skipSchemaValidation)
+	valuesToRender, err := chartutil.ToRenderValuesWithSchemaValidation(chart, values, options, caps, skipSchemaValidation)
 	if err != nil {
 		linter.RunLinterRule(support.ErrorSev, fpath, err)
 		return
